@@ -119,6 +119,10 @@ fn sources(args: &Args, n: usize) -> Vec<String> {
             40 + 10 * k
         ));
     }
+    // the enums that ship with the repository, as written (callbacks, payloads, generics, extras, error types)
+    for (_, src) in model::harvest::harvest_raw() {
+        out.push(format!("{src}\n"));
+    }
     for i in 0..n {
         match i % 6 {
             0 | 1 => out.push(a.new_tree(&mut runner).unwrap().current()),
